@@ -338,7 +338,9 @@ impl WorldExec {
         }
         if w[0].starts_with("src.") && w.len() >= 3 && unhexs(w[2]) == "s" {
             let id = unhexs(w[1]);
-            if !self.scripts_before.contains_key(&id) { let cur = self.script_bytes(&id); self.scripts_before.insert(id, cur); }
+            // only for assets that are cached now: for the others the script they are first loaded from is the baseline
+            let cached = ["S0", "S1", "S2", "N0", "AN", "AS"].iter().any(|t| self.peek(t, &id).is_some());
+            if cached && !self.scripts_before.contains_key(&id) { let cur = self.script_bytes(&id); self.scripts_before.insert(id, cur); }
         }
         self.op_inner(line)
     }
